@@ -17,7 +17,7 @@ import (
 func TestC14(t *testing.T) {
 	simkit.Main(t, "C14", components, func(r *simkit.Run) {
 		only := simkit.Only()
-		mode := rapid.SampledFrom([]string{"rate-projection", "rate-projection", "rate-eviction", "rate-eviction", "rate-eviction-lru", "rate-eviction-lru", "rate-eviction-hetero", "conn-twin", "conn-fine"}).Draw(r.T, "mode")
+		mode := rapid.SampledFrom([]string{"rate-projection", "rate-projection", "rate-eviction", "rate-eviction", "rate-eviction-lru", "rate-eviction-lru", "rate-eviction-hetero", "conn-twin", "conn-fine", "rate-broken-sink"}).Draw(r.T, "mode")
 		if only != "" {
 			mode = only
 		}
@@ -32,6 +32,8 @@ func TestC14(t *testing.T) {
 			c14evictionHetero(r)
 		case "conn-twin":
 			c14connTwin(r)
+		case "rate-broken-sink":
+			c14brokenSink(r)
 		default:
 			c04core(r, 2, true)
 			r.Probe("conn-fine-partitioned-history")
@@ -620,5 +622,73 @@ func c14evictionHetero(r *simkit.Run) {
 	r.Probe("rate-eviction-hetero")
 	r.Sample(func() any {
 		return map[string]any{"mode": "rate-eviction-hetero", "rates_per_source": fmt.Sprint(ps), "capacity": capacity, "first_ops": trace}
+	})
+}
+
+// The caller's log sink breaks once (at the n-th call of one level, by draw) in a limiter of small capacity whose
+// entries expire within the run. The request that was logging is lost. A twin with a healthy logger gets the same
+// requests at the same instants: whatever the limiter does before and after the lost request - expiry, making room,
+// independent sources - the two must go on answering alike.
+func c14brokenSink(r *simkit.Run) {
+	rt := r.T
+	guardRun = r
+	drawSrcBase(rt)
+	capacity := rapid.IntRange(1, 3).Draw(rt, "capacity")
+	nsrc := capacity + rapid.IntRange(1, 3).Draw(rt, "extra-sources")
+	avg := int64(rapid.IntRange(1, 3).Draw(rt, "average"))
+	period := time.Duration(rapid.IntRange(1, 5).Draw(rt, "period-s")) * time.Second
+	rates := []rateSpec{{period, avg, int64(rapid.IntRange(1, int(2*avg)).Draw(rt, "burst"))}}
+	drawRateSource(rt)
+	_, unfreeze := freeze(rt)
+	defer unfreeze()
+	start := clock.Now()
+	left := rapid.IntRange(1, 4).Draw(rt, "log-call-that-panics")
+	brokenSink = &simkit.FaultyLogger{Left: &left, Level: rapid.SampledFrom([]string{"debug", "warn", "warn", "info", "error"}).Draw(rt, "log-level-that-breaks")}
+	A := newTLim(rt, rates, capacity)
+	brokenSink = nil
+	T := newTLim(rt, rates, capacity)
+	var trace []string
+	h := simkit.NewHash()
+	lost := 0
+	nops := rapid.IntRange(3, 60).Draw(rt, "ops")
+	for i := 0; i < nops; i++ {
+		switch rapid.IntRange(0, 5).Draw(rt, "step") {
+		case 0, 1: // a little time: buckets refill partly
+			d := time.Duration(rapid.Int64Range(1, int64(2*period)).Draw(rt, "dt"))
+			clock.Advance(d)
+			r.SimTime(d)
+		case 2: // long enough for sources that stay away to outlive their entries
+			d := time.Duration(rapid.Int64Range(int64(3*period), int64(40*period)).Draw(rt, "dt-long"))
+			clock.Advance(d)
+			r.SimTime(d)
+		}
+		s := rapid.IntRange(0, nsrc-1).Draw(rt, "source")
+		amount := int64(rapid.IntRange(1, 2).Draw(rt, "amount"))
+		ra := A.do(srcName(s), amount)
+		rb := T.do(srcName(s), amount)
+		t := clock.Now().Sub(start)
+		h.Int(int64(s))
+		h.Int(int64(ra.status))
+		if len(trace) < 100 {
+			trace = append(trace, fmt.Sprintf("t=%v s%d x%d -> %d lost=%v (twin %d)", t, s, amount, ra.status, ra.lost, rb.status))
+		}
+		if ra.lost {
+			lost++
+			r.Fault("logger-panic")
+			continue
+		}
+		if !ra.same(rb) {
+			r.Tracef("trace: %v", trace)
+			r.Fail("eviction", "t=%v source s%d (amount %d): the limiter whose log sink broke once (%d requests lost so far) answers %d retry=%q, its twin with a healthy logger %d retry=%q (capacity %d, rates %v)",
+				t, s, amount, lost, ra.status, ra.retryHdr, rb.status, rb.retryHdr, capacity, rates)
+		}
+	}
+	r.SetDigest(uint64(h))
+	if lost > 0 {
+		r.Nontrivial()
+	}
+	r.Probe("rate-broken-sink")
+	r.Sample(func() any {
+		return map[string]any{"mode": "rate-broken-sink", "rates": fmt.Sprint(rates), "sources": nsrc, "capacity": capacity, "lost": lost, "first_ops": trace}
 	})
 }
